@@ -418,6 +418,7 @@ def judge_cases(ctx, tag, header, typ, terms, verdicts, shard=40, timeout=1200):
         files.append(ctx.write("cases_%s_%03d.v" % (tag, s // shard), txt))
     bad = [[] for _ in verdicts]
     outs = coqc_many(files, ctx.gendir, timeout)
+    ctx.extra.setdefault("slowest_shards", {})[tag] = sorted(((round(o[3], 1), k) for k, o in enumerate(outs)), reverse=True)[:3]
     for k, (ok, so, se, secs) in enumerate(outs):
         if not ok:
             ctx.obligation("X:cases_%s_%03d.v evaluates" % (tag, k), False, (se or so)[-800:])
